@@ -60,6 +60,35 @@ theorem size_hint_exact {std : Std} {cfg : Headers} {r : Rng Data} {st : DeState
   unfold sizeHint
   rw [nextN_rows, hrows, List.length_drop, List.length_drop, rows_length hw.inv]
 
+/-! ## skipping: `nth` (and with it `skip`, `step_by`, which std implements through `nth`) -/
+
+/-- `nth n` is `n` calls to `next` whose results are dropped, followed by one more `next` -/
+theorem nth_eq_iterate_next (st : DeState) (sh : Shape) (n : Nat) :
+    nth st sh n = next (nextN sh n st) sh := nth_eq sh n st
+
+/-- After `k` calls to `next`, `nth n` yields the item of row `k + n` after the header row, at that row's own
+    absolute position `(start.row + hdr + k + n, start.col)` (skipped rows move the position too), or `None`
+    past the end; afterwards `k + n + 1` rows are consumed. -/
+theorem nth_spec {std : Std} {cfg : Headers} {r : Rng Data} {st : DeState} (hw : WF r)
+    (h : new std cfg r = .ok st) (sh : Shape) (k n : Nat) :
+    (nth (nextN sh k st) sh n).1 =
+      ((Range.rows r)[k + n + hdrRows cfg r]?).map (fun row =>
+        rowItem st.colIdx st.headers row (r.sr + hdrRows cfg r + (k + n), r.sc) sh) ∧
+    (nth (nextN sh k st) sh n).2 = nextN sh (k + n + 1) st := by
+  have hcomp : ∀ a b (s : DeState), nextN sh a (nextN sh b s) = nextN sh (b + a) s := by
+    intro a b
+    induction b with
+    | zero => intro s; simp [nextN]
+    | succ b ih => intro s; rw [nextN, ih, Nat.add_right_comm]; rfl
+  rw [nth_eq, hcomp]
+  constructor
+  · have := items_getElem? sh (k + n + 1) st (k + n) (by omega)
+    rw [items_spec hw h sh (k + n + 1)] at this
+    simp only [List.getElem?_map, List.getElem?_range (Nat.lt_succ_self _), Option.map_some] at this
+    injection this with this
+    exact this.symm
+  · exact (nextN_succ' sh (k + n) st).symm
+
 /-! ## without headers: a record is the row's cells by position -/
 
 /-- `Headers::None`: whatever the record type asks for (`seq` or `map`: there are no headers, so a map request
